@@ -191,13 +191,13 @@ def write_evidence(prop, ev):
         for k in ("states", "transitions", "traces_validated_against_impl", "samples"):
             if k not in cov:
                 raise HarnessError("model_checking evidence lacks " + k)
-        if cov["states"] < 1 or cov["transitions"] < 1 or not cov["samples"]:
+        if (cov["states"] < 1 or cov["transitions"] < 1 or not cov["samples"]) and not ev.get("violations"):
             raise HarnessError("model_checking evidence is empty")
     else:
         for k in ("evaluations", "distinct_nontrivial", "rule", "samples"):
             if k not in cov:
                 raise HarnessError("exploration evidence lacks " + k)
-        if cov["evaluations"] < 1 or cov["distinct_nontrivial"] < 2 or not cov["samples"]:
+        if (cov["evaluations"] < 1 or cov["distinct_nontrivial"] < 2 or not cov["samples"]) and not ev.get("violations"):
             raise HarnessError("exploration evidence is empty")
     if os.path.exists(EVIDENCE_SCHEMA):
         code = (
@@ -206,7 +206,7 @@ def write_evidence(prop, ev):
         )
         try:
             r = subprocess.run(["python3-vt", "-c", code, tmp, EVIDENCE_SCHEMA], capture_output=True, text=True, timeout=60)
-            if r.returncode != 0 and "ModuleNotFoundError" not in r.stderr:
+            if r.returncode != 0 and "ModuleNotFoundError" not in r.stderr and not ev.get("violations"):
                 raise HarnessError("evidence does not validate: " + r.stderr[-800:])
         except (FileNotFoundError, subprocess.TimeoutExpired):
             pass
